@@ -104,6 +104,13 @@ impl Addr {
     pub fn as_str(&self) -> (r: &Str) ensures r@ == self@ { unimplemented!() }
 }
 
+/// `impl Into<String>` arguments
+pub trait AsStr { spec fn sv(&self) -> Seq<char>; }
+impl AsStr for Str { open spec fn sv(&self) -> Seq<char> { self@ } }
+impl AsStr for &Str { open spec fn sv(&self) -> Seq<char> { (*self)@ } }
+impl AsStr for Addr { open spec fn sv(&self) -> Seq<char> { self@ } }
+impl AsStr for &Addr { open spec fn sv(&self) -> Seq<char> { (*self)@ } }
+
 // ---------------------------------------------------------------- errors (dependency types)
 pub struct StdError { pub tag: Ghost<int> }
 pub struct OverflowError { pub tag: Ghost<int> }
